@@ -41,20 +41,25 @@ def main() -> int:
 
     broken: list[str] = []  # proof obligations / correspondence that no longer check
     facts = {}
-    # 1. translator
-    if hasattr(mod, "extract"):
-        try:
-            facts = mod.extract(ctx) or {}
-        except Exception as e:  # source shape no longer recognised -> obligation not checked
-            broken.append(f"extract: {type(e).__name__}: {e}")
-            facts = {"extract_error": traceback.format_exc()[-1500:]}
+    # 1. translator (runs under the build lock, see common.lake_build)
+    def do_extract():
+        nonlocal facts
+        if hasattr(mod, "extract"):
+            try:
+                facts = mod.extract(ctx) or {}
+            except Exception as e:  # source shape no longer recognised -> obligation not checked
+                broken.append(f"extract: {type(e).__name__}: {e}")
+                facts = {"extract_error": traceback.format_exc()[-1500:]}
+
     # 2. build + 3. audit
     modules = list(mod.LEAN_MODULES)
     build = audit = None
     checker_cmds = []
-    if not a.no_build:
+    if a.no_build:
+        do_extract()
+    else:
         extra = list(getattr(mod, "DRIVER_MODULES", []))
-        build = C.lake_build(modules + extra)
+        build = C.lake_build(modules + extra, extract=do_extract)
         checker_cmds.append(build.cmd)
         if not build.ok:
             broken.append("lake build failed: " + _first_error(build.log))
